@@ -68,136 +68,147 @@ def c_agent_first_id():
     return f"Definition gen_agent_first_id : Z := {T._z(n)}."
 
 
-def _struct_of_stmt(s, verb):
-    """which registry structure a statement of register_agent / deregister_agent touches"""
-    if verb == "del":
-        if (isinstance(s, ast.Delete) and len(s.targets) == 1 and isinstance(s.targets[0], ast.Subscript)
-                and _is_self_attr(s.targets[0].value, "_agents")):
-            return "RHard"
-    else:
-        if (isinstance(s, ast.Assign) and len(s.targets) == 1 and isinstance(s.targets[0], ast.Subscript)
-                and _is_self_attr(s.targets[0].value, "_agents")):
-            return "RHard"
-    if isinstance(s, ast.Expr) and isinstance(s.value, ast.Call) and isinstance(s.value.func, ast.Attribute):
-        f = s.value.func
-        want = "remove" if verb == "del" else "add"
-        if f.attr == want and _is_self_attr(f.value, "_all_agents"):
-            return "RAll"
-        if (f.attr == want and isinstance(f.value, ast.Subscript) and _is_self_attr(f.value.value, "_agents_by_type")):
-            sl = f.value.slice
-            if not (isinstance(sl, ast.Call) and isinstance(sl.func, ast.Name) and sl.func.id == "type" and len(sl.args) == 1):
-                raise T.Broken("agents_by_type is not indexed by type(agent)")
-            return "RByType"
-    if verb == "add" and isinstance(s, ast.Try):
-        # try: self._agents_by_type[type(agent)].add(agent)  except KeyError: self._agents_by_type[type(agent)] = AgentSet([agent], ...)
-        if len(s.body) == 1 and _struct_of_stmt(s.body[0], "add") == "RByType" and len(s.handlers) == 1 and not s.orelse and not s.finalbody:
-            h = s.handlers[0]
-            if isinstance(h.type, ast.Name) and h.type.id == "KeyError" and len(h.body) == 1 and isinstance(h.body[0], ast.Assign):
-                a = h.body[0]
-                t = a.targets[0]
-                if (isinstance(t, ast.Subscript) and _is_self_attr(t.value, "_agents_by_type") and isinstance(a.value, ast.Call)
-                        and isinstance(a.value.func, ast.Name) and a.value.func.id == "AgentSet" and a.value.args
-                        and isinstance(a.value.args[0], ast.List) and len(a.value.args[0].elts) == 1
-                        and isinstance(a.value.args[0].elts[0], ast.Name) and a.value.args[0].elts[0].id == "agent"):
-                    return "RByType"
-    raise T.Broken(f"unexpected statement at line {getattr(s, 'lineno', '?')}")
+# ---------------------------------------------------------------------------------------------------
+# Statement skeletons, compared modulo names of local variables, docstrings (nested ones too), comments,
+# formatting, type annotations, logger calls and the TEXT of exception messages (pyexpr.normalized_statements).
+import copy
+import re
+
+import pyexpr
 
 
-def _order(fname, verb, cname):
-    cls = T._find_class(T._parse("mesa/model.py"), "Model")
-    fn = T._find_func(cls, fname)
-    order = [_struct_of_stmt(s, verb) for s in _body(fn)]
+class _Strip(ast.NodeTransformer):
+    """drop every docstring, turn annotated assignments into plain ones, drop _mesa_logger calls"""
+
+    def _body(self, body):
+        out = []
+        for st in body:
+            if isinstance(st, ast.Expr) and isinstance(st.value, ast.Constant) and isinstance(st.value.value, str):
+                continue
+            if _is_logger_call(st):
+                continue
+            if isinstance(st, ast.AnnAssign):
+                if st.value is None:
+                    continue
+                st = ast.copy_location(ast.Assign(targets=[st.target], value=st.value, lineno=st.lineno), st)
+            out.append(st)
+        return out or [ast.Pass()]
+
+    def generic_visit(self, node):
+        super().generic_visit(node)
+        for field in ("body", "orelse", "finalbody"):
+            if isinstance(getattr(node, field, None), list) and not isinstance(node, ast.Module):
+                if field == "body" or getattr(node, field):
+                    setattr(node, field, self._body(getattr(node, field)) if (field == "body" or getattr(node, field)) else [])
+        return node
+
+
+_MSG = re.compile(r"raise (\w+)\((['\"]).*?\2\)")
+
+
+def _norm(rel, cls, fn, keep=("type", "list", "range", "isinstance", "len", "next", "super")):
+    f = copy.deepcopy(T._find_func(T._find_class(T._parse(rel), cls), fn))
+    f = ast.fix_missing_locations(_Strip().visit(f))
+    out = [x for x in pyexpr.normalized_statements(f, keep=keep) if x != "pass"]
+    return [_MSG.sub(r"raise \1(<msg>)", x) for x in out]
+
+
+def _expect(what, got, want):
+    if got != want:
+        diff = [f"{a!r} != {b!r}" for a, b in zip(got, want) if a != b] or [f"{len(got)} statements, expected {len(want)}"]
+        raise T.Broken(f"statement skeleton of {what} changed: {diff[0][:220]}")
+
+
+DEREG = {"del self._agents[agent]": "RHard", "self._agents_by_type[type(agent)].remove(agent)": "RByType",
+         "self._all_agents.remove(agent)": "RAll"}
+REG = {"self._agents[agent] = None": "RHard",
+       "try:\n    self._agents_by_type[type(agent)].add(agent)\nexcept KeyError:\n"
+       "    self._agents_by_type[type(agent)] = AgentSet([agent], random=self.random)": "RByType",
+       "self._all_agents.add(agent)": "RAll"}
+
+
+def _order(fname, table, cname):
+    """TRANSLATION: the order in which the function touches the three structures, read off its statements"""
+    got = _norm("mesa/model.py", "Model", fname)
+    order = []
+    for st in got:
+        if st not in table:
+            raise T.Broken(f"unexpected statement in {fname}: {st[:160]!r}")
+        order.append(table[st])
     if sorted(order) != ["RAll", "RByType", "RHard"]:
         raise T.Broken(f"{fname} does not touch each of the three structures exactly once: {order}")
     return f"Definition {cname} : list reg_struct := [" + "; ".join(order) + "]."
 
 
 def c_deregister_order():
-    return _order("deregister_agent", "del", "gen_deregister_order")
+    return _order("deregister_agent", DEREG, "gen_deregister_order")
 
 
 def c_register_order():
-    return _order("register_agent", "add", "gen_register_order")
+    return _order("register_agent", REG, "gen_register_order")
 
 
 def c_remove_suppresses():
-    """Agent.remove = `with contextlib.suppress(KeyError): self.model.deregister_agent(self)` and
-    remove_all_agents iterates over list(self._agents.keys()) calling agent.remove()"""
-    cls = T._find_class(T._parse("mesa/agent.py"), "Agent")
-    b = _body(T._find_func(cls, "remove"))
-    ok = len(b) == 1 and isinstance(b[0], ast.With) and len(b[0].items) == 1
-    if ok:
-        ce = b[0].items[0].context_expr
-        ok = (isinstance(ce, ast.Call) and isinstance(ce.func, ast.Attribute) and ce.func.attr == "suppress" and len(ce.args) == 1
-              and isinstance(ce.args[0], ast.Name) and ce.args[0].id == "KeyError" and len(b[0].body) == 1)
-    if ok:
-        s = b[0].body[0]
-        ok = (isinstance(s, ast.Expr) and isinstance(s.value, ast.Call) and isinstance(s.value.func, ast.Attribute)
-              and s.value.func.attr == "deregister_agent" and _is_self_attr(s.value.func.value, "model"))
-    if not ok:
-        raise T.Broken("Agent.remove is not `with contextlib.suppress(KeyError): self.model.deregister_agent(self)`")
-    mcls = T._find_class(T._parse("mesa/model.py"), "Model")
-    b = _body(T._find_func(mcls, "remove_all_agents"))
-    ok = len(b) == 1 and isinstance(b[0], ast.For) and not b[0].orelse
-    if ok:
-        it = b[0].iter
-        ok = (isinstance(it, ast.Call) and isinstance(it.func, ast.Name) and it.func.id == "list" and len(it.args) == 1
-              and isinstance(it.args[0], ast.Call) and isinstance(it.args[0].func, ast.Attribute) and it.args[0].func.attr == "keys"
-              and _is_self_attr(it.args[0].func.value, "_agents") and len(b[0].body) == 1)
-    if ok:
-        s = b[0].body[0]
-        ok = (isinstance(s, ast.Expr) and isinstance(s.value, ast.Call) and isinstance(s.value.func, ast.Attribute)
-              and s.value.func.attr == "remove" and not s.value.args)
-    if not ok:
-        raise T.Broken("remove_all_agents is not `for agent in list(self._agents.keys()): agent.remove()`")
+    _expect("Agent.remove", _norm("mesa/agent.py", "Agent", "remove"),
+            ["with contextlib.suppress(KeyError):\n    self.model.deregister_agent(self)"])
+    _expect("Model.remove_all_agents", _norm("mesa/model.py", "Model", "remove_all_agents"),
+            ["for v0 in list(self._agents.keys()):\n    v0.remove()"])
     return "Definition gen_remove_suppresses_keyerror : bool := true."
 
 
+AGENT_INIT = ["super().__init__(*args, **kwargs)", "self.model = model", "self.unique_id = next(self._ids[model])",
+              "self.pos = None", "self.model.register_agent(self)"]
+CREATE_AGENTS = [
+    "class ListLike:\n\n    def __init__(v10, value):\n        v10.value = value\n\n    def __getitem__(v10, v6):\n        return v10.value",
+    "v0 = []",
+    "for v1 in args:\n    if isinstance(v1, list | np.ndarray | tuple) and len(v1) == n:\n        v0.append(v1)\n    else:\n        v0.append(ListLike(v1))",
+    "v2 = {}",
+    "for v3, v4 in kwargs.items():\n    if isinstance(v4, list | np.ndarray | tuple) and len(v4) == n:\n        v2[v3] = v4\n    else:\n        v2[v3] = ListLike(v4)",
+    "v5 = []",
+    "for v6 in range(n):\n    v7 = [v1[v6] for v1 in v0]\n    v8 = {v3: v4[v6] for v3, v4 in v2.items()}\n    v9 = cls(model, *v7, **v8)\n    v5.append(v9)",
+    "return AgentSet(v5, random=model.random)",
+]
+MODEL_INIT = ["super().__init__(*args, **kwargs)", "self.running = True", "self.steps = 0", "<seed / rng set-up>",
+              "self._user_step = self.step", "self.step = self._wrapped_step", "self._agents = {}",
+              "self._agents_by_type = {}", "self._all_agents = AgentSet([], random=self.random)"]
+
+
+def _model_init():
+    got = _norm("mesa/model.py", "Model", "__init__")
+    return ["<seed / rng set-up>" if x.startswith("if seed is not None and rng is not None:") else x for x in got]
+
+
+def c_registry_skeleton():
+    """Agent.__init__, Agent.create_agents and the registry part of Model.__init__ are, statement for statement, what
+    Model/Registry.v transcribes (agent_init, create_agents/pay_at, fresh_model)"""
+    _expect("Agent.__init__", _norm("mesa/agent.py", "Agent", "__init__"), AGENT_INIT)
+    _expect("Agent.create_agents", _norm("mesa/agent.py", "Agent", "create_agents"), CREATE_AGENTS)
+    _expect("Model.__init__", _model_init(), MODEL_INIT)
+    return "Definition gen_registry_skeleton_ok : bool := true."
+
+
+WRAPPED = {"self.steps += 1": "WIncr", "self._user_step(*args, **kwargs)": "WCall"}
+
+
 def c_wrapped_step_order():
+    """TRANSLATION of _wrapped_step into its statement order; the binding order in __init__ is part of MODEL_INIT"""
     cls = T._find_class(T._parse("mesa/model.py"), "Model")
     fn = T._find_func(cls, "_wrapped_step")
     if not (fn.args.vararg and fn.args.vararg.arg == "args" and fn.args.kwarg and fn.args.kwarg.arg == "kwargs"
             and [a.arg for a in fn.args.args] == ["self"]):
         raise T.Broken("_wrapped_step is not (self, *args, **kwargs)")
     order = []
-    for s in _body(fn):
-        if (isinstance(s, ast.AugAssign) and _is_self_attr(s.target, "steps") and isinstance(s.op, ast.Add)
-                and isinstance(s.value, ast.Constant) and s.value.value == 1 and type(s.value.value) is int):
-            order.append("WIncr")
-        elif (isinstance(s, ast.Expr) and isinstance(s.value, ast.Call) and _is_self_attr(s.value.func, "_user_step")
-              and len(s.value.args) == 1 and isinstance(s.value.args[0], ast.Starred) and isinstance(s.value.args[0].value, ast.Name)
-              and s.value.args[0].value.id == "args" and len(s.value.keywords) == 1 and s.value.keywords[0].arg is None
-              and isinstance(s.value.keywords[0].value, ast.Name) and s.value.keywords[0].value.id == "kwargs"):
-            order.append("WCall")
-        else:
-            raise T.Broken(f"unexpected statement in _wrapped_step at line {s.lineno}")
-    # __init__ must bind _user_step to self.step and then shadow step on the instance, in this order
-    init = T._find_func(cls, "__init__")
-    pos = {}
-    for i, s in enumerate(init.body):
-        if isinstance(s, ast.Assign) and len(s.targets) == 1:
-            if _is_self_attr(s.targets[0], "_user_step") and _is_self_attr(s.value, "step"):
-                pos["bind"] = i
-            if _is_self_attr(s.targets[0], "step") and _is_self_attr(s.value, "_wrapped_step"):
-                pos["shadow"] = i
-    if not ("bind" in pos and "shadow" in pos and pos["bind"] < pos["shadow"]):
-        raise T.Broken("__init__ does not do `self._user_step = self.step; self.step = self._wrapped_step`")
+    for st in _norm("mesa/model.py", "Model", "_wrapped_step"):
+        if st not in WRAPPED:
+            raise T.Broken(f"unexpected statement in _wrapped_step: {st[:160]!r}")
+        order.append(WRAPPED[st])
+    _expect("Model.__init__", _model_init(), MODEL_INIT)
     return "Definition gen_wrapped_step_order : list wstmt := [" + "; ".join(order) + "]."
 
 
 def c_run_model_loop():
-    cls = T._find_class(T._parse("mesa/model.py"), "Model")
-    b = _body(T._find_func(cls, "run_model"))
-    ok = len(b) == 1 and isinstance(b[0], ast.While) and _is_self_attr(b[0].test, "running") and not b[0].orelse and len(b[0].body) == 1
-    if ok:
-        s = b[0].body[0]
-        ok = (isinstance(s, ast.Expr) and isinstance(s.value, ast.Call) and _is_self_attr(s.value.func, "step")
-              and not s.value.args and not s.value.keywords)
-    if not ok:
-        raise T.Broken("run_model is not `while self.running: self.step()`")
-    st = _body(T._find_func(cls, "step"))
-    if st and not all(isinstance(x, ast.Pass) for x in st):
-        raise T.Broken("Model.step is not empty")
+    _expect("Model.run_model", _norm("mesa/model.py", "Model", "run_model"), ["while self.running:\n    self.step()"])
+    _expect("Model.step", _norm("mesa/model.py", "Model", "step"), [])
     return "Definition gen_run_model_loop : list rmstmt := [RMWhileRunning; RMStep]."
 
 
@@ -208,4 +219,5 @@ CONSTRUCTS = [
     ("remove_suppresses_keyerror", "mesa/agent.py", c_remove_suppresses, lambda: "Definition gen_remove_suppresses_keyerror : bool := false."),
     ("wrapped_step_order", "mesa/model.py", c_wrapped_step_order, lambda: "Definition gen_wrapped_step_order : list wstmt := []."),
     ("run_model_loop", "mesa/model.py", c_run_model_loop, lambda: "Definition gen_run_model_loop : list rmstmt := []."),
+    ("registry_skeleton", "mesa/agent.py", c_registry_skeleton, lambda: "Definition gen_registry_skeleton_ok : bool := false."),
 ]
